@@ -454,7 +454,7 @@ class C18(Prop):
     trusted_extra = ['regex-lite\'s engine: trusted; compared with a small reference engine in Coq on the generated subset']
     rule = ('31 fixed and 700 (60000) random patterns over literals, `.`, classes (also negated), * + ?, alternation, capturing and non-capturing groups, ^ and $, '
             'including empty-matching patterns, generated as ASTs and rendered to pattern text; 6 (17) haystacks each (empty, ASCII, non-ASCII, newline), replacement '
-            'strings, limits 0..5 and fractional/negative; 18 escaped literals x 27 haystacks; 18 invalid and 8 valid-but-unmodelled patterns. Oracle on the '
+            'strings, limits 0..5 and fractional/negative; `$0`/`${0}` over every fixed pattern x haystack (the model proves the answer is the haystack); 18 escaped literals x 27 haystacks; 18 invalid and 8 valid-but-unmodelled patterns. Oracle on the '
             'implementation alone: the four builtins against regex-lite used directly by the harness (is_match iff find non-empty, find = find_iter, capture = first '
             'captures padded with empty strings and of length captures_len in both cases, replace without limit splices exactly the find spans and with limit n the '
             'first n), escaped literal = contains/count/replace, invalid pattern = error value from all four. Correspondence: all five outputs against the wrappers '
